@@ -16,14 +16,17 @@
 (* the repairs of F-C18a/b/c.                                              *)
 (***************************************************************************)
 EXTENDS Integers, Sequences
-CONSTANTS Wnd, Variant
+CONSTANTS Wnd, Variant,
+          LastSlot    \* what keeps the last slot of the send window free: "ackLevel" (segments received and not yet acknowledged, as the
+                      \* code did) or "pendingAck" (an acknowledgement that can actually go out with the segment)
 
 NewEnd(init) == [est |-> FALSE, hsPending |-> init, W |-> 0, swLevel |-> 0, swLast |-> -1,
                  rwLevel |-> 0, rwAckLevel |-> 0, rwAckSeq |-> -1, rwRem |-> 0, rwMsgs |-> 0,
                  out |-> 0, outFirst |-> TRUE]
 
 PendingAck(x) == x.rwAckLevel > 0 /\ x.rwMsgs = 0                 \* RecvWindow::pending_ack
-Full(x) == x.swLevel = 0 \/ (x.swLevel = 1 /\ x.rwAckLevel = 0)   \* SendWindow::is_full
+\* SendWindow::is_full: the last slot is kept for a segment that carries an acknowledgement
+Full(x) == x.swLevel = 0 \/ (x.swLevel = 1 /\ (IF LastSlot = "ackLevel" THEN x.rwAckLevel = 0 ELSE ~PendingAck(x)))
 AckDue(x, timer) == PendingAck(x) /\ (x.rwLevel <= 1 \/ timer)    \* Session::is_ack_due
 
 \* SendWindow::post_send + RecvWindow::post_send
